@@ -162,7 +162,7 @@ pub fn run(tier: &str) -> i32 {
         // (3) the source template passes every emitted rule
         for (nme, st) in &rules {
             if *st != St::Pass {
-                let cause = classify(rs);
+                let cause = classify(rs, (0..TYPES.len()).find(|t| rule_name(TYPES[*t]) == *nme));
                 acc.violate(&format!("own-template-not-PASS:{}", cause), format!("rule {} is {} on the template it was generated from | rules `{}` template `{}`", nme, st.txt(), p.out.trim(), text.trim()), replay("PASS", st.txt().into()));
             }
         }
@@ -251,20 +251,21 @@ pub fn run(tier: &str) -> i32 {
 
 /// which input shape makes the emitted rule disagree with its own template (first cause in a fixed priority order;
 /// these are the signatures of the recorded findings)
-fn classify(rs: &[Res]) -> String {
-    // a property set for some but not all resources of a type
-    for t in 0..TYPES.len() {
-        let sets: Vec<BTreeSet<&String>> = rs.iter().filter(|r| r.ty == Some(t)).filter_map(|r| r.props.as_ref()).filter(|p| !p.is_empty()).map(|p| p.iter().map(|(n, _)| n).collect()).collect();
-        if sets.windows(2).any(|w| w[0] != w[1]) {
-            return "property-absent-in-some-resources-of-the-type".into();
-        }
-        // resources of the type without any properties next to resources with properties
-        let without = rs.iter().filter(|r| r.ty == Some(t)).any(|r| r.props.as_ref().map_or(true, |p| p.is_empty()));
-        if without && !sets.is_empty() {
-            return "property-absent-in-some-resources-of-the-type".into();
-        }
+/// the cause class of a rule that is not PASS on its own template, judged on the resources of that rule's type only (a known
+/// finding about one type must not hide a failure of another type's rule)
+fn classify(rs: &[Res], ty: Option<usize>) -> String {
+    let of_type: Vec<&Res> = rs.iter().filter(|r| ty.is_none() || r.ty == ty).collect();
+    // a property set for some but not all resources of the type
+    let sets: Vec<BTreeSet<&String>> = of_type.iter().filter_map(|r| r.props.as_ref()).filter(|p| !p.is_empty()).map(|p| p.iter().map(|(n, _)| n).collect()).collect();
+    if sets.windows(2).any(|w| w[0] != w[1]) {
+        return "property-absent-in-some-resources-of-the-type".into();
     }
-    let vals: Vec<&V> = rs.iter().filter_map(|r| r.props.as_ref()).flat_map(|p| p.iter().map(|(_, v)| v)).collect();
+    // resources of the type without any properties next to resources with properties
+    let without = of_type.iter().any(|r| r.props.as_ref().map_or(true, |p| p.is_empty()));
+    if without && !sets.is_empty() {
+        return "property-absent-in-some-resources-of-the-type".into();
+    }
+    let vals: Vec<&V> = of_type.iter().filter_map(|r| r.props.as_ref()).flat_map(|p| p.iter().map(|(_, v)| v)).collect();
     if vals.iter().any(|v| matches!(v, V::Str(x) if x.trim() != x)) {
         return "string-trimmed".into();
     }
@@ -274,8 +275,18 @@ fn classify(rs: &[Res]) -> String {
     if vals.iter().any(|v| matches!(v, V::Str(x) if x.contains('"') || x.contains('\\'))) {
         return "quote-or-backslash-unescaped".into();
     }
-    if vals.iter().any(|v| matches!(v, V::List(_) | V::Map(_))) {
+    // a property that holds a list or map in one resource and a different value in another resource of the type
+    let mut by_prop: std::collections::BTreeMap<&String, Vec<&V>> = Default::default();
+    for r in &of_type {
+        for (n, v) in r.props.iter().flatten() {
+            by_prop.entry(n).or_default().push(v);
+        }
+    }
+    if by_prop.values().any(|vs| vs.iter().any(|v| matches!(v, V::List(_) | V::Map(_))) && vs.iter().any(|v| v.json() != vs[0].json())) {
         return "structured-value-among-several".into();
+    }
+    if vals.iter().any(|v| matches!(v, V::List(_) | V::Map(_))) {
+        return "structured-value".into();
     }
     if vals.iter().any(|v| matches!(v, V::Null)) {
         return "null-value".into();
